@@ -18,7 +18,7 @@ class Abort(BaseException):
 
 class Task:
     __slots__ = ("sched", "fn", "name", "proc", "sem", "done", "waiting", "timed", "exc", "thread", "blocked_on", "where",
-                 "index", "kind", "started_by", "early_ok")
+                 "index", "kind", "started_by", "early_ok", "last_step")
 
     def __init__(self, sched, fn, name, proc, kind):
         self.sched, self.fn, self.name, self.proc, self.kind = sched, fn, name, proc, kind
@@ -27,6 +27,7 @@ class Task:
         self.waiting = None
         self.timed = False
         self.early_ok = True     # see prims._timed_wait
+        self.last_step = 0       # the scheduler step at which this task was last given the processor
         self.exc = None
         self.blocked_on = None
         self.where = None
@@ -157,6 +158,22 @@ class Sched:
                 self.shared_steps.append(self.steps)
                 self._mark_shared = False
             if self.steps > self.max_steps:
+                # Budget exhausted. One situation is not a matter of budget: for the last >= 15 000 steps a single task has been
+                # running (polling with timeouts) while every other live task is blocked on a condition that only another task
+                # could make true. Nothing can change any more; it is reported like a deadlock, with the poller's position.
+                others = [x for x in live if x is not t]
+                if others and all(x.waiting is not None and not x.timed and not x.waiting() and x.last_step < self.steps - 15000 for x in others) \
+                        and not virt:
+                    f = sys._getframe(1)
+                    while f is not None and f.f_code.co_filename not in self.sut_files:
+                        f = f.f_back
+                    where = (f.f_code.co_name, f.f_lineno) if f is not None else None
+                    self.outcome = ("deadlock", [(t.name, "polls-forever(%s)" % (t.blocked_on or "?"), where)] +
+                                    [(x.name, x.blocked_on, x.where) for x in others])
+                    self._stop()
+                    if t.done:
+                        return
+                    raise Abort()
                 self.outcome = ("budget",)
                 self._stop()
                 if t.done:
@@ -168,6 +185,7 @@ class Sched:
                 continue
             pick.waiting = None
             pick.timed = False
+            pick.last_step = self.steps
             self.cur = pick
             if pick is t:
                 return
